@@ -1075,4 +1075,46 @@ theorem subIdx_char (projs : Option (List (List Nat))) (n : Nat)
           have := h i hi
           omega
 
+/-! ### np.where on the boundary tag mask; argument checks -/
+
+theorem whereTrue_props (i : Nat) (mask : List Bool) :
+    (whereTrue i mask).Pairwise (· < ·) ∧ ∀ b ∈ whereTrue i mask, i ≤ b ∧ b < i + mask.length := by
+  induction mask generalizing i with
+  | nil => simp [whereTrue]
+  | cons c cs ih =>
+    obtain ⟨hp, hr⟩ := ih (i + 1)
+    have hr' : ∀ b ∈ whereTrue (i + 1) cs, i ≤ b ∧ b < i + (c :: cs).length := by
+      intro b hb
+      have := hr b hb
+      simp only [List.length_cons]
+      omega
+    cases c with
+    | false => simpa [whereTrue] using ⟨hp, hr'⟩
+    | true =>
+      simp only [whereTrue, if_true, List.pairwise_cons, List.mem_cons]
+      refine ⟨⟨fun b hb => by have := hr b hb; omega, hp⟩, ?_⟩
+      rintro b (rfl | hb)
+      · simp
+      · exact hr' b hb
+
+theorem setLen_le (l : List Nat) : setLen l ≤ l.length := by
+  induction l with
+  | nil => simp [setLen]
+  | cons c l ih =>
+    simp only [setLen, List.length_cons]
+    split <;> omega
+
+theorem setLen_lt_iff (l : List Nat) : setLen l < l.length ↔ ¬ l.Nodup := by
+  induction l with
+  | nil => simp [setLen]
+  | cons c l ih =>
+    have hle := setLen_le l
+    simp only [setLen, List.length_cons, List.nodup_cons]
+    split
+    · next h => simp [h]; omega
+    · next h =>
+      simp only [h, not_false_eq_true, true_and]
+      rw [← ih]
+      omega
+
 end PorepyVerif.C27
